@@ -46,10 +46,19 @@ func childC06(args []string) {
 	cctx, ccancel := context.WithCancel(context.Background())
 	ccancel()
 	ctx := context.Background()
-	for i := from; i < to && i < corpus.Len(); i++ {
+	for i0 := from; i0 < to && i0 < corpus.Len(); i0++ {
+		// every seventeenth line is the previous one once more, same PID: a line is
+		// processed for what it says, whatever came before it
+		i := i0
+		if i0 >= corpus.PrefixLen()+1 { // the each-choice cases all run; repeats replace random ones
+			i = repeatIdx(i0, from)
+		}
+		if i != i0 {
+			out.add("lines_repeating_the_previous_line", 1)
+		}
 		c := corpus.At(i)
 		pid := pidTokens[i%len(pidTokens)]
-		out.begin(i, c.Msg)
+		out.begin(i0, c.Msg)
 		var o sshObs
 		if c.Accepted && i%8 == 3 {
 			o = hc.observe(cctx, "direct", pid, c.Msg, "", false)
@@ -119,7 +128,14 @@ func childC19(args []string) {
 	cctx, ccancel := context.WithCancel(context.Background())
 	ccancel()
 	ctx := context.Background()
-	for i := from; i < to; i++ {
+	for i0 := from; i0 < to; i0++ {
+		i := i0
+		if i0 >= corpus.PrefixLen()+1 {
+			i = repeatIdx(i0, from)
+		}
+		if i != i0 {
+			out.add("lines_repeating_the_previous_line", 1)
+		}
 		var pid, msg, form string
 		accepted := false
 		if i < nValid {
@@ -195,6 +211,15 @@ func childC19(args []string) {
 			}
 		}
 	}
+}
+
+// repeatIdx: case index for loop position i0 - every seventeenth position takes
+// the previous position's case again (unless that one belonged to another batch).
+func repeatIdx(i0, from int) int {
+	if i0%17 == 8 && i0 > from {
+		return i0 - 1
+	}
+	return i0
 }
 
 func c19N17(tier string) int {
